@@ -249,10 +249,12 @@ def rule_r2(ctx, rep):
 
     def swap_indices(fn, n):
         """(index expr a, index expr b) when statement n of function fn swaps two child-list positions"""
+        al = {x.targets[0].id for x in ast.walk(fn.node) if isinstance(x, ast.Assign) and len(x.targets) == 1 and isinstance(x.targets[0], ast.Name)
+              and _is_children(nm, x.value)}
         if isinstance(n, ast.Assign) and len(n.targets) == 1 and isinstance(n.targets[0], ast.Tuple) and isinstance(n.value, ast.Tuple) \
                 and len(n.targets[0].elts) == 2 and len(n.value.elts) == 2:
             a, b = n.targets[0].elts
-            if all(isinstance(x, ast.Subscript) and _is_children(nm, x.value) for x in (a, b)) \
+            if all(isinstance(x, ast.Subscript) and (_is_children(nm, x.value) or (isinstance(x.value, ast.Name) and x.value.id in al)) for x in (a, b)) \
                     and norm(a) == norm(n.value.elts[1]) and norm(b) == norm(n.value.elts[0]):
                 return a.slice, b.slice
         return None
@@ -268,6 +270,7 @@ def rule_r2(ctx, rep):
                 if H is None or H.cls is None or H.cls.qname != NODE_Q or H.qname == fi.qname:
                     continue
                 body = [x for x in H.node.body if not (isinstance(x, ast.Expr) and isinstance(x.value, ast.Constant))]
+                body = [x for x in body if not (isinstance(x, ast.Assign) and len(x.targets) == 1 and isinstance(x.targets[0], ast.Name) and _is_children(nm, x.value))]
                 if len(body) == 1 and swap_indices(H, body[0]):
                     ha, hb = swap_indices(H, body[0])
                     am = ctx.world.arg_map(tg, n.value)
